@@ -216,52 +216,51 @@ Theorem commit_info_abs : forall rw l,
                     end.
 Proof. intros rw l H. unfold commit_info. rewrite (term_abs rw l _ H). reflexivity. Qed.
 
-(* upper bound of the apply window *)
+(* upper bound of the apply window: min(committed, persisted.saturating_add(limit)) *)
 Definition ll_apply_bound (l : raft_log) : N :=
-  N.min (committed l) (persisted l + max_apply_unpersisted_log_limit l).
+  N.min (committed l) (N.min u64_max (persisted l + max_apply_unpersisted_log_limit l)).
 
 Theorem has_next_entries_since_abs : forall rw l since,
     RepInv rw l -> since < u64_max ->
-    persisted l + max_apply_unpersisted_log_limit l <= u64_max ->
     has_next_entries_since l since
     = Ok (N.max (since + 1) (ll_first (abs l)) <? ll_apply_bound l + 1).
 Proof.
-  intros rw l since H Hs Hov. unfold has_next_entries_since, applied_index_upper_bound, ll_apply_bound.
+  intros rw l since H Hs. unfold has_next_entries_since, applied_index_upper_bound, ll_apply_bound.
   destruct (since =? u64_max) eqn:E0; [lia|].
   rewrite (abs_base_first rw l H). cbn [bind].
-  destruct (u64_max <? persisted l + max_apply_unpersisted_log_limit l) eqn:E1; [lia|]. cbn [bind].
   pose proof (ri_commit rw l H). pose proof (ri_bound rw l H).
-  destruct (N.min (committed l) (persisted l + max_apply_unpersisted_log_limit l) =? u64_max) eqn:E2; [lia|].
+  destruct (N.min (committed l) (N.min u64_max (persisted l + max_apply_unpersisted_log_limit l)) =? u64_max) eqn:E2; [lia|].
   reflexivity.
 Qed.
 
-(* F8: the sum persisted + limit is not guarded *)
-Theorem apply_bound_overflow_panics : forall l since,
-    since < u64_max -> u64_max < persisted l + max_apply_unpersisted_log_limit l ->
-    (exists f, first_index l = Ok f) ->
-    has_next_entries_since l since = Panic site_l_overflow.
+(* F8 (fixed in /repo 63caa76): the sum persisted + limit saturates, so a limit of
+   u64::MAX means "everything committed" instead of a panic *)
+Theorem apply_bound_saturates : forall rw l since,
+    RepInv rw l -> since < u64_max -> u64_max <= persisted l + max_apply_unpersisted_log_limit l ->
+    has_next_entries_since l since
+    = Ok (N.max (since + 1) (ll_first (abs l)) <? committed l + 1).
 Proof.
-  intros l since Hs Hov [f Hf]. unfold has_next_entries_since, applied_index_upper_bound.
-  destruct (since =? u64_max) eqn:E0; [lia|]. rewrite Hf. cbn [bind].
-  destruct (u64_max <? persisted l + max_apply_unpersisted_log_limit l) eqn:E1; [reflexivity|lia].
+  intros rw l since H Hs Hov. rewrite (has_next_entries_since_abs rw l since H Hs).
+  unfold ll_apply_bound. pose proof (ri_commit rw l H). pose proof (ri_bound rw l H).
+  replace (N.min (committed l) (N.min u64_max (persisted l + max_apply_unpersisted_log_limit l)))
+    with (committed l) by lia.
+  reflexivity.
 Qed.
 
 Theorem next_entries_since_abs : forall rw l since max,
     RepInv rw l -> since < u64_max ->
-    persisted l + max_apply_unpersisted_log_limit l <= u64_max ->
     let lo := N.max (since + 1) (ll_first (abs l)) in
     let hi := ll_apply_bound l + 1 in
     next_entries_since l since max
     = Ok (if lo <? hi then Some (ll_slice (abs l) lo hi max) else None).
 Proof.
-  intros rw l since max H Hs Hov lo hi. subst lo hi.
+  intros rw l since max H Hs lo hi. subst lo hi.
   unfold next_entries_since, applied_index_upper_bound, ll_apply_bound.
   destruct (since =? u64_max) eqn:E0; [lia|].
   rewrite (abs_base_first rw l H). cbn [bind].
-  destruct (u64_max <? persisted l + max_apply_unpersisted_log_limit l) eqn:E1; [lia|]. cbn [bind].
   pose proof (ri_commit rw l H). pose proof (ri_bound rw l H).
-  destruct (N.min (committed l) (persisted l + max_apply_unpersisted_log_limit l) =? u64_max) eqn:E2; [lia|].
-  destruct (N.max (since + 1) (ll_first (abs l)) <? N.min (committed l) (persisted l + max_apply_unpersisted_log_limit l) + 1) eqn:E3;
+  destruct (N.min (committed l) (N.min u64_max (persisted l + max_apply_unpersisted_log_limit l)) =? u64_max) eqn:E2; [lia|].
+  destruct (N.max (since + 1) (ll_first (abs l)) <? N.min (committed l) (N.min u64_max (persisted l + max_apply_unpersisted_log_limit l)) + 1) eqn:E3;
     [|reflexivity].
   rewrite (slice_abs rw l _ _ max H); [reflexivity|lia|lia|lia].
 Qed.
